@@ -73,6 +73,13 @@ Theorem C09_fam_nodup : forall s, WF s -> s_kind s = KZbdd ->
 Proof. exact famz_nodup. Qed.
 Print Assumptions C09_fam_nodup.
 
+(** the variable reading: variable [v] belongs to the variable set of [S] iff its level belongs to [S] *)
+Theorem C09_var_view_mem : forall s v vl S, WF s ->
+  nth_error (s_v2l s) v = Some vl -> Forall (fun x => x < nlevels s) S ->
+  (In v (map (fun l => nth l (s_l2v s) 0) S) <-> In vl S).
+Proof. exact var_view_mem. Qed.
+Print Assumptions C09_var_view_mem.
+
 (** bool_view: the Boolean-function view (membership = satisfying assignment
     over all levels of the manager) is the characteristic function of the family view *)
 Theorem C09_bool_view : forall s, WF s -> s_kind s = KZbdd ->
